@@ -296,6 +296,7 @@ class FuncAnalysis:
         self.call_class_facts = {}   # call id -> {'z': set(facts), 'nz': set(facts)}
         self.call_saved = {}         # call id -> {'z': must entries surviving a z return, 'nz': ...}
         self.termcache = {}
+        self.load_prior = {}
 
     # ------------------------------------------------------------ helpers
     def site(self, inst):
@@ -546,6 +547,9 @@ class FuncAnalysis:
             if collect:
                 self.note_deref(inst, inst["ops"][0], st, "load")
                 self.do_read(addr, inst["size"], inst, st)
+                if inst["type"].endswith("*") and addr is not None:
+                    # memory writes that may precede this pointer load (C15: a freed pointer fetched after a wipe)
+                    self.load_prior[inst["id"]] = (Loc(addr, inst["size"]), [(l, w) for (l, w) in st.may.values()])
         elif o == "call":
             self.do_call(st, inst, collect)
 
@@ -597,7 +601,13 @@ class FuncAnalysis:
             if collect:
                 self.S.ext_calls.setdefault(name, self.site(inst))
                 a = self.am.of(inst["ops"][0])
-                self.S.frees.append((inst["id"], self.term(inst["ops"][0], st), a, self.site(inst), st.facts))
+                src = None
+                op = inst["ops"][0]
+                while op[0] == "i" and self.f.insts[op[1]]["op"] in CASTS:
+                    op = self.f.insts[op[1]]["ops"][0]
+                if op[0] == "i" and op[1] in self.load_prior:
+                    src = self.load_prior[op[1]]
+                self.S.frees.append((inst["id"], self.term(inst["ops"][0], st), a, self.site(inst), st.facts, src))
             return
         # library function (direct or through a vtable)
         targets = []
@@ -718,9 +728,19 @@ class FuncAnalysis:
                         self.S.reads.setdefault((self.reg(a2), loc.size), (Loc(a2, loc.size), site + " -> " + w))
                 for (iid, fn, sz, w) in s.allocs:
                     self.S.allocs.append((inst["id"], fn, xl_term(sz, s) or ("v", "sz"), site + " -> " + w))
-                for (iid, t, a, w, ffacts) in s.frees:
+                for (iid, t, a, w, ffacts, src) in s.frees:
                     a2 = xl_addr(a) if a is not None else None
-                    self.S.frees.append((inst["id"], xl_term(t, s) or ("v", "fr"), a2, site + " -> " + w, st.facts))
+                    src2 = None
+                    if src is not None:
+                        la = xl_addr(src[0].addr)
+                        if la is not None:
+                            prior = [(l, pw) for (l, pw) in st.may.values()]
+                            for (l, pw) in src[1]:
+                                xa = xl_addr(l.addr) if l.addr is not None else None
+                                if xa is not None:
+                                    prior.append((Loc(xa, l.size), site + " -> " + str(pw)))
+                            src2 = (Loc(la, src[0].size), prior)
+                    self.S.frees.append((inst["id"], xl_term(t, s) or ("v", "fr"), a2, site + " -> " + w, st.facts, src2))
                 for n2, w in s.ext_calls.items():
                     self.S.ext_calls.setdefault(n2, site + " -> " + w)
                 for a in s.asms:
